@@ -3,7 +3,10 @@
 Real sktime / sklearn estimator subclasses, defined in the harness, that
   * append every call they receive (operation, the series / rows they were handed, the horizon)
     to the module-global LOG, in call order (clones share the `tag`, so the log survives clone()),
-  * forecast / transform / regress deterministically with exact dyadic arithmetic.
+  * forecast / transform / regress deterministically with exact dyadic arithmetic,
+  * count how often the very same Python object has been fitted before (`gen` in every fit event;
+    0 for a fresh clone) — clone() does not copy it, so a composite that fits the user's object
+    instead of a clone shows up in the log.
 
 They go through the REAL base classes of /repo (`_SktimeForecaster`, the optional-horizon mixin,
 `_SeriesToSeriesTransformer`), so the base-class bookkeeping (remembered series, cutoff, horizon,
@@ -57,7 +60,9 @@ class RecForecaster(_OptionalForecastingHorizonMixin, _SktimeForecaster):
         self.level_ = self.a * v[-1] + self.b * v.sum() + self.c * len(v)
 
     def fit(self, y, X=None, fh=None):
-        LOG.append(("F", self.tag, "fit", ser(y), fh_rel(fh, y.index[-1] if len(y) else None), None))
+        gen = getattr(self, "_gen", 0)   # how often THIS object was fitted before (0 for a fresh clone)
+        self._gen = gen + 1
+        LOG.append(("F", self.tag, "fit", ser(y), fh_rel(fh, y.index[-1] if len(y) else None), gen))
         self._set_y_X(y, X)
         self._set_fh(fh)
         self._level()
@@ -90,7 +95,9 @@ class RecTransformer(_SeriesToSeriesTransformer):
         super(RecTransformer, self).__init__()
 
     def fit(self, Z, X=None):
-        LOG.append(("T", self.tag, "fit", ser(Z), None, None))
+        gen = getattr(self, "_gen", 0)
+        self._gen = gen + 1
+        LOG.append(("T", self.tag, "fit", ser(Z), None, gen))
         v = np.asarray(Z, dtype="float64")
         self.ref_ = float(v[-1]) if len(v) else 0.0
         self._is_fitted = True
@@ -147,7 +154,9 @@ class RecRegressor(RegressorMixin, SkBase):
     def fit(self, X, y):
         X = self._rows(X)
         y = np.asarray(y, dtype="float64")
-        LOG.append(("G", self.tag, "fit", [list(map(float, r)) for r in X], [float(v) for v in y], None))
+        gen = getattr(self, "_gen", 0)
+        self._gen = gen + 1
+        LOG.append(("G", self.tag, "fit", [list(map(float, r)) for r in X], [float(v) for v in y], gen))
         if len(X) != len(y):
             raise ValueError("inconsistent numbers of samples")
         w = np.arange(1, X.shape[1] + 1, dtype="float64")
